@@ -32,14 +32,14 @@ Theorem C17_options :
 Proof. exact option_candidates. Qed.
 Print Assumptions C17_options.
 
-(* values after `--name=`: precisely the option's suggested/valid values and value-function results
+(* values after `--name=`: only the entry whose key is the text written before the `=` contributes,
+   and it contributes precisely that option's suggested/valid values and value-function results
    that extend the typed word *)
 Theorem C17_values :
   forall vfn t w k sp,
-    contains_byte 61 (strip_dashes w) = true -> k <> [DASH] ->
-    prefixb (strip_dashes w) k = false ->
+    k <> [DASH] -> prefixb (strip_dashes w) k = false ->
     opt_entry vfn t w (strip_dashes w) k sp =
-      if prefixb k (strip_dashes w) then
+      if prefixb (k ++ [61%N]) (strip_dashes w) then
         let cand e := [DASH; DASH] ++ k ++ [61%N] ++ e in
         List.map (render t) (List.filter (fun c => prefixb w c) (List.map cand (os_suggested sp))) ++
         match os_sfn sp with
